@@ -23,9 +23,11 @@ func init() {
 		ID: "C06", Level: "exploration",
 		Batches: []core.Batch{
 			{Name: "histories", Engine: store.NodeDBEngine{Prop: "C06"}, Quick: 10000, Thorough: 150000,
-				Rule: "a run is non-trivial when the history has at least four operations including a commit and a finalize"},
+				Rule: "a run is non-trivial when the history has at least four operations including a commit and a finalize", Weight: 3},
+			{Name: "chainhistory", Engine: chain.Engine{Prop: "C06"}, Quick: 240, Thorough: 6000,
+				Rule: "a run is non-trivial when at least three heights were produced and at least three retained versions of the replicas' consensus databases were read back completely (most replicas prune with a window of 1-6 versions, a pruner step runs in every block)", Weight: 1},
 		},
-		Real:        []string{"storage/mkvs/db/badger and pathbadger on tmpfs directories (Commit/Finalize/Prune/reopen), mkvs trees, proofs"},
+		Real:        []string{"storage/mkvs/db/badger and pathbadger on tmpfs directories (Commit/Finalize/Prune/reopen), mkvs trees, proofs", "chain level (batch chainhistory): the consensus application's state database under the real ABCI mux (doCommit, genericPruner with keep-N), with restarts, catch-ups and state-sync joiners"},
 		Stub:        []string{"concurrent readers are state machines advanced inside the writer at verifhook points (inline preemption), not OS threads"},
 		Assumptions: []string{"every version has a state-root candidate derived from the previous finalized state root (as the consensus layer produces them)", "badger background goroutines (flush, compaction, GC) are real and unscheduled"},
 	})
